@@ -143,7 +143,82 @@ def check_spec(case):
     return R(out, nt=nt, n=len(pres), labels=labels)
 
 
+# ---------------------------------------------------------------------------------------------------------------
+# chains of external links across directories (added after seed c03-b-r5)
+# ---------------------------------------------------------------------------------------------------------------
+NESTED_LAYOUTS = {
+    # directory (relative to the base directory) of the books b, c, d;  a.xlsx is in the base directory
+    'down-down-side': {'b': 'sub', 'c': 'sub/deep', 'd': 'other'},
+    'down-deeper': {'b': 'x/y', 'c': 'x/y/z', 'd': 'x/y'},
+    'sibling-dirs': {'b': 'one', 'c': 'one/two', 'd': 'one/three'},
+    'flat': {'b': '', 'c': '', 'd': ''},
+}
+
+
+def _nested_dir_cases():
+    import itertools as _it
+    for lname in sorted(NESTED_LAYOUTS):
+        for vi, vals in enumerate(([7.0, 5.0, 100.0, 3.0], [2.5, -4.0, 8.0, 0.0])):
+            loads = ['follow'] + [''.join(o) for o in _it.permutations('bcd')][::(1 if vi == 0 else 3)]
+            for ld in loads:
+                yield {'k': 'nested', 'layout': lname, 'vals': vals, 'load': ld}
+
+
+def check_nested(case):
+    """a.xlsx -> b.xlsx -> (c.xlsx, d.xlsx) through numbered external links; the target of a link is relative to the
+    directory of the workbook that holds the link.  Expected values: the formulas below applied by hand to the constants."""
+    import openpyxl
+    import posixpath
+    from openpyxl.packaging.relationship import Relationship
+    from openpyxl.workbook.external_link.external import ExternalLink, ExternalBook, ExternalSheetNames
+    dirs = dict(NESTED_LAYOUTS[case['layout']], a='')
+    c1, c2, d1, b4 = case['vals']
+    books = {
+        'c': ({'A1': c1, 'A2': c2, 'A3': '=A1*A2'}, []),
+        'd': ({'A1': d1, 'B1': '=A1/4'}, []),
+        'b': ({'A1': '=[1]S!A1*2', 'A2': '=SUM([1]S!A1:A3)', 'A3': '=[2]S!B1+A1', 'A4': b4}, ['c', 'd']),
+        'a': ({'A1': '=[1]S!A1+1', 'A2': '=[1]S!A2+[1]S!A4', 'A3': '=SUM([1]S!A1:A4)', 'A4': 'text'}, ['b']),
+    }
+    ev = {'c': {'A1': c1, 'A2': c2, 'A3': c1 * c2}, 'd': {'A1': d1, 'B1': d1 / 4}}
+    ev['b'] = {'A1': c1 * 2, 'A2': c1 + c2 + c1 * c2, 'A3': d1 / 4 + c1 * 2, 'A4': b4}
+    ev['a'] = {'A1': ev['b']['A1'] + 1, 'A2': ev['b']['A2'] + b4, 'A3': ev['b']['A1'] + ev['b']['A2'] + ev['b']['A3'] + b4, 'A4': 'text'}
+    fails = []
+    with G.workdir() as root:
+        paths = {}
+        for nm in 'cdba':
+            cells, links = books[nm]
+            wb = openpyxl.Workbook()
+            ws = wb.active
+            ws.title = 'S'
+            for k, v in cells.items():
+                ws[k] = v
+            for t in links:
+                rel = posixpath.relpath(posixpath.join(dirs[t], t + '.xlsx'), dirs[nm] or '.')
+                el = ExternalLink(externalBook=ExternalBook(sheetNames=ExternalSheetNames(sheetName=['S'])))
+                el.file_link = Relationship(type='externalLinkPath', Target=rel, TargetMode='External')
+                wb._external_links.append(el)
+            p = os.path.join(root, dirs[nm], nm + '.xlsx')
+            os.makedirs(os.path.dirname(p), exist_ok=True)
+            wb.save(p)
+            paths[nm] = p
+        files = [paths['a']] + ([] if case['load'] == 'follow' else [paths[x] for x in case['load']])
+        m = sut.ExcelModel().loads(*files).finish()
+        sol = m.calculate()
+        for nm in 'abcd':
+            sid = "'%s[%s.xlsx]S'" % (dirs[nm] + '/' if dirs[nm] else '', nm)
+            for k, e in sorted(ev[nm].items()):
+                node = next((x for x in sol if isinstance(x, str) and x.upper() == ('%s!%s' % (sid, k)).upper()), None)
+                got = sut.one(sol[node]) if node is not None else 'MISSING'
+                if node is None or not X.same(got, e, 1e-9):
+                    fails.append(('nested-links|%s|%s|%s' % (case['layout'], 'follow' if case['load'] == 'follow' else 'explicit', nm),
+                                  'loads(a%s): %s!%s is %r, expected %r' % ('' if case['load'] == 'follow' else ',' + ','.join(case['load']), sid, k, got, e)))
+                    break
+    return R(fails, nt=case['layout'] != 'flat', n=1, labels=['part:nested-links', 'layout:' + case['layout'], 'load:' + ('follow' if case['load'] == 'follow' else 'explicit')])
+
+
 def check_case(case):
+    if case['k'] == 'nested':
+        return check_nested(case)
     if case['k'] == 'spec':
         return check_spec(case)
     raise ValueError(case['k'])
@@ -263,6 +338,7 @@ def parts(tier, seed):
         ('hyp', 'wholecol', 8 if q else 320, 1, {'nproc': 8}),
         ('enum', 'wide-columns', _wide_specs(), 1, False),
         ('enum', 'anchor-across-books', _anchor_specs(), 1, False),
+        ('enum', 'links-across-directories', list(_nested_dir_cases()), 2, False),
         ('custom', 'hashseeds', 'hashseed_batch',
          [{'shard': i, 'n': per, 'hashseeds': [1, 2] if q else [1, 2, 3, 4]} for i in range(shards)]),
     ]
